@@ -1,7 +1,7 @@
 """C05 -- edits through the format-preserving parser are local and read back."""
 import ast
 
-from .. import heap as H, rx, strlang, cfg, paths
+from .. import heap as H, rx, strlang, cfg, paths, normalize
 from ..core import AnalysisError, norm, walk_no_nested
 from . import C10
 
@@ -505,6 +505,40 @@ def r5_setitem_routing(rep, src):
             rep.fail('C05.R5', s.site, what, 'set_field_to_simple_value does not build " " + value + "\\n" (got %s)' % (exc or calls), where=s.where)
 
 
+def r6_delitem_routing(rep, src):
+    """deleting through the dict interface removes the field the caller named -- every occurrence of a plain name (the listed
+    side effect is the only one): on every path __delitem__ hands its key to remove_kvpair_element unchanged"""
+    m = src.mod(PM)
+    n = 0
+    for q, fn in sorted(m.funcs.items()):
+        if not q.endswith('.__delitem__') or fn.cls is None:
+            continue
+        rep.saw_func(fn)
+        keyp = fn.params()[1]
+        node, _ = normalize.inline_helpers(fn, depth=2)
+        ps = [p_ for p_ in paths.function_paths(node) if p_.outcome[0] != 'raise']
+        calls = []
+        for p_ in ps:
+            for ev in p_.events:
+                if ev[0] == 'effect':
+                    for c in ast.walk(ev[1]):
+                        if isinstance(c, ast.Call) and isinstance(c.func, ast.Attribute) and c.func.attr == 'remove_kvpair_element' and c.args:
+                            calls.append((p_, c))
+        if not calls:
+            continue
+        n += 1
+        bad = [(p_, c) for p_, c in calls if norm(c.args[0]) != keyp]
+        what = 'the key is handed to remove_kvpair_element unchanged'
+        if bad:
+            rep.fail('C05.R6', fn.site, what, 'on the path [%s] the field removed is %s, not the given key `%s`: `del paragraph[name]` on a repeated field leaves '
+                     'occurrences behind (the field is still in the mapping, the dump and a re-parse)' % (bad[0][0].describe()[:100], norm(bad[0][1].args[0])[:50], keyp),
+                     where=fn.where)
+        else:
+            rep.ok('C05.R6', fn.site, what, '%d path(s)' % len(calls))
+    if n == 0:
+        raise AnalysisError('no __delitem__ that removes through remove_kvpair_element found')
+
+
 def check(src, rep, tier):
     rep.explanation = ('C05: set/remove of both paragraph classes are interpreted on symbolic heaps (shared with C10): a new key calls the '
                        'final-newline helper before the first mutation and is appended last, an existing key is replaced in place without the '
@@ -523,3 +557,4 @@ def check(src, rep, tier):
     rep.guard('C05.R3', r3_keys, src)
     rep.guard('C05.R4', r4_validate_before_commit, src)
     rep.guard('C05.R5', r5_setitem_routing, src)
+    rep.guard('C05.R6', r6_delitem_routing, src)
